@@ -761,8 +761,8 @@ impl<'a> fmt::Debug for DnaStringSlice<'a> {
     fn fmt(&self, f: &mut fmt::Formatter<'_>) -> fmt::Result {
         let mut s = String::new();
         if self.length < 256 {
-            for pos in self.start..(self.start + self.length) {
-                s.push(bits_to_base(self.dna_string.get(pos)))
+            for pos in 0..self.length {
+                s.push(bits_to_base(self.get(pos)))
             }
             write!(f, "{}", s)
         } else {
